@@ -60,7 +60,7 @@ def judge(script, obs):
 def main(tier, seed, prop=PROP, two=False):
     rep = Report(prop, tier, seed)
     runner.clear_replays(prop)
-    L = 3 if tier == 'quick' else 4
+    L = 2 if tier == 'quick' else 3
     rep.bounds = dict(prefix='concrete history that fully allocates one 1000 MiB file with three blocks of two topics and seals them (490 MiB, 100 B, 480 MiB, 20 MiB appends)',
                       suffix='every sequence of <= %d operations from {read_next, peek, consuming batch read, peeking batch read, offset-addressed read (symbolic offset)} on the topics, byte budgets symbolic; plus a second family: three small entries in a file that is not fully allocated, followed by every sequence of <= %d operations from {read_next, peek, offset read, clean restart}' % (L, L),
                       reclaimer='deletion channel observed in the model; natively the background thread runs with 1 ms ticks')
